@@ -2202,6 +2202,12 @@ class ReaderExtractor:
             # a condition on a peeked header that is not understood as a tag test guards a read: reading on would give the
             # component a wildcard tag - there is no grammar to report on
             raise AnalysisError(f"{fi.qualname}:{s.lineno}: test `{norm(s.test)[:70]}` on a peeked header is not understood as a tag test")
+        unbound_h = sorted({k.value.id for b in list(s.body) + list(s.orelse) for x in ast.walk(b) if isinstance(x, ast.Call) and self._read_call(x, st) is not None
+                            for k in x.keywords if k.arg == "header" and isinstance(k.value, ast.Name) and k.value.id in st["headers"] and st["headers"].get(k.value.id) is None})
+        if unbound_h and not (isinstance(t_sub, ast.Name) and t_sub.id in st["readers"]):
+            # a read that is handed a peeked header whose identifier no enclosing test has decided, under a condition that is not a tag
+            # test (`tag_id == (cls, number)` on a slice of the tag, a flag computed elsewhere): the component would get a wildcard tag
+            raise AnalysisError(f"{fi.qualname}:{s.lineno}: read of the peeked header `{unbound_h[0]}` under `{norm(s.test)[:60]}`, which is not understood as a tag test")
         self._block(s.body, st)
         self._block(s.orelse, st)
 
